@@ -18,6 +18,8 @@ structure Place where
   dur : Int
   tws : List (Int × Int)        -- empty = no time restriction
   tag : Option String
+  /-- shared reload resource this (reload) place draws on -/
+  resource : Option String := none
 deriving Repr
 
 structure Task where
@@ -97,6 +99,8 @@ structure Problem where
   relations : List Relation
   /-- objective type names, flattened (only used to know whether `tour-order` is an objective) -/
   objectives : List String
+  /-- shared reload resources: id and total capacity -/
+  resources : List (String × List Int) := []
 deriving Repr
 
 /-! ## solution -/
